@@ -3,6 +3,7 @@ NEXT Next
 CONSTANTS
   FlatLen = 4
   Mode = "nest"
+  Small = FALSE
 INVARIANT Sane
 INVARIANT ImplSatisfiesProperty
 INVARIANT ImplShape
